@@ -790,6 +790,23 @@ fn cross_read(case: &BytesCase, obs: &mut Obs) -> PropResult {
 	Ok(())
 }
 
+fn corpus(ctx: &mut Ctx) {
+	let files = crate::corpus::load();
+	ctx.run_enum("corpus_javac", |rec| {
+		for (name, bytes) in &files {
+			let mut obs = rec.obs();
+			let r = crate::engine::no_panic(|| -> PropResult {
+				walk_layout(bytes).map_err(|e| format!("harness: layout walker rejects the javac-compiled class {name}: {e}"))?;
+				bytes_roundtrip(bytes, &mut obs).map_err(|e| format!("{name}: {e}"))?;
+				obs.nontrivial();
+				Ok(())
+			})
+			.and_then(|x| x);
+			rec.case(|| serde_json::json!({"corpus_class": name, "bytes": bytes.len()}), crate::engine::fnv64(bytes), obs, r);
+		}
+	});
+}
+
 pub fn run(ctx: &mut Ctx) {
 	ctx.rule = "(a) well-formed class files from the harness encoder (all encodings; with and without long/double constants): write(read(b)) == b byte for byte, length() == |b|; (b) raw ClassFile values generated directly (self-consistent attribute names, otherwise arbitrary indices/counts, every attribute kind the crate models, nested attributes in Code and Record): |to_bytes()| == length(), an independent JVMS layout walker must consume every attribute exactly per its attribute_length (count widths per JVMS), read(write(v)) == v; (c) files re-written by raw_class_file are cross-read by the strict decoder (== the generating model) and duke. Non-trivial = class with code / value with >= 3 distinct attribute kinds; distinct by case hash".into();
 	ctx.assume("raw stack map frames use the ranges their variants can express (SameFrame offset <= 63, Chop k in 1..=3, Append 1..=3 locals)");
@@ -798,4 +815,5 @@ pub fn run(ctx: &mut Ctx) {
 	ctx.run_sub("bytes_roundtrip", ctx.tier.pick(8000, 160_000), bytes_strategy, wellformed);
 	ctx.run_sub("raw_value_roundtrip", ctx.tier.pick(12_000, 240_000), || (proptest::collection::vec(any::<u8>(), 0..600), prop_oneof![3 => Just(false), 1 => Just(true)]).prop_map(|(stream, wide)| RawCase { stream, wide }), raw_value);
 	ctx.run_sub("cross_read", ctx.tier.pick(4000, 80_000), bytes_strategy, cross_read);
+	corpus(ctx);
 }
